@@ -994,7 +994,12 @@ impl<'a, K: Kmer + 'a, D: Debug + 'a> Iterator for NodeKmerIter<'a, K, D> {
                 self.next();
             }
         } else {
-            self.kmer_id += n;
+            self.kmer_id = self.kmer_id.saturating_add(n);
+            if self.kmer_id >= self.num_kmers {
+                // skipped past the last kmer of this node: the iterator is exhausted
+                self.kmer_id = self.num_kmers;
+                return None;
+            }
             self.kmer = self.node_seq_slice.get_kmer::<K>(self.kmer_id);
         }
 
